@@ -691,7 +691,7 @@ func replay(c *common.Ctx, path string) int {
 
 func init() {
 	common.Register(&common.Prop{
-		ID: "C14", Level: "model_checking", Sharded: true, Run: run, Coverage: coverage, Replay: replay,
+		ID: "C14", Level: "model_checking", Sharded: true, Run: run, Coverage: coverage, Replay: replay, Race: raceBody,
 		Assumptions: []string{
 			"interleavings of concurrent runs are explored at statement granularity (every context poll of the interpreter is a schedule point); code between two polls is atomic",
 			"the reflection-based dump sees every field of every node, literal values by value and function-valued slots by validity/nil-ness",
